@@ -182,3 +182,16 @@ Proof.
 Qed.
 
 End RTU.
+
+(* rt_text_u for a text of kept code points *)
+Lemma rt_text_free dbg hp ho hd s c t h p :
+  In s five_schemes -> p <= 65535 ->
+  forallb freec (c :: t) = true -> usv_list (c :: t) -> hp (c :: t) = Ok h ->
+  hd h = host_fmt hd h -> host_fmt hd h <> [] -> ends_with_byte 47 (host_fmt hd h) = false ->
+  nlen (tuple_serialization s (host_fmt hd h) p) < U32_MAX_P ->
+  exists w, url_parse dbg hp ho hd (tuple_serialization s (utf8_encode (c :: t)) p) = POk w
+            /\ forall f k, url_origin_fuel dbg hp ho hd f k w = OOk (Tuple s h p) k.
+Proof.
+  intros H5 Hp Hf Hu. pose proof (freec_facts c ltac:(cbn [forallb] in Hf; apply andb_true_iff in Hf; tauto)) as Hc.
+  apply (rt_text_u dbg hp ho hd s c t h p H5 Hp (scannable_u_free _ Hf) Hu); tauto.
+Qed.
